@@ -63,6 +63,22 @@ func (c *Ctx) Failed() bool {
 	return c.fail != ""
 }
 
+// FailedExcept reports whether a failure of a class other than the given ones was recorded.
+func (c *Ctx) FailedExcept(classes ...string) bool {
+	c.mu.Lock()
+	defer c.mu.Unlock()
+outer:
+	for _, f := range c.fails {
+		for _, k := range classes {
+			if f.class == k {
+				continue outer
+			}
+		}
+		return true
+	}
+	return false
+}
+
 // Observe appends to the observation vector of this execution (vacuity measure).
 func (c *Ctx) Observe(s string) {
 	c.mu.Lock()
